@@ -1514,8 +1514,14 @@ int main(int argc, char** argv)
                         {
                             for (int ieps = 0; ieps < 2; ++ieps)
                             {
-                                for (const int ime : {1, 4})
+                                // the penalty / augmented-Lagrangian solvers re-run their inner solver with a tightened precision at
+                                // every outer iteration: the smallest budget keeps the outer loop going to its last iteration
+                                for (const int ime : {0, 1, 4})
                                 {
+                                    if (ime == 0 && w.solvers[si].constrained == 0)
+                                    {
+                                        continue;
+                                    }
                                     setup_t su;
                                     su.solver = static_cast<int>(si), su.func = static_cast<int>(fi);
                                     su.ix0 = ix0, su.ieps = ieps, su.ime = ime, su.variant = v;
